@@ -951,8 +951,8 @@ fn c04_check(tier: &str, replay: Option<&str>) -> i32 {
         for part in 0..pp {
             // torn sectors and the larger subset cap for histories of up to two requests; length-3
             // histories with the quick tier's adversary (the count of images grows 8x with tearing)
-            let short = h.iter().filter(|c| **c != crate::ecrash::COp::HoldConnection).count() <= 2;
-            let (cap_h, pl_h, torn_h) = if quick { (cap, pair_limit, false) } else if short { (cap, pair_limit, true) } else { (8, 16, false) };
+            let nreq = h.iter().filter(|c| **c != crate::ecrash::COp::HoldConnection).count();
+            let (cap_h, pl_h, torn_h) = if quick { (cap, pair_limit, false) } else if nreq <= 1 { (cap, pair_limit, true) } else if nreq == 2 { (10, 24, false) } else { (8, 16, false) };
             tasks.push(json!({"hist": names, "part": part, "parts": pp, "cap": cap_h, "pair_limit": pl_h, "torn": torn_h}));
         }
     }
